@@ -22,7 +22,7 @@ EXTENDS Naturals, Sequences, FiniteSets, TLC
 
 Styles == {"wrapped", "out_bare", "empty", "bare"}
 Rets   == {"none", "one", "two", "three", "gen", "ignored", "fault", "exc",
-           "cplx", "ignored_cplx"}     \* one return value of a two-member complex type / Ignored where such a type is declared
+           "cplx", "ignored_cplx", "ignored_two"}     \* ignored_two: Ignored where TWO values are declared     \* one return value of a two-member complex type / Ignored where such a type is declared
 Nil == 0 - 1                         \* None
 Val(i) == 10 * i                      \* the value the caller means for argument i
 Alt(i) == 10 * i + 5                  \* a different value, used to show who wins
@@ -36,8 +36,12 @@ Modes == {"pos", "kw", "both", "kwnil", "absent", "kwzero", "poszero"}
 Positional == {"pos", "both", "kwnil", "poszero"}
 PrefixOk(ms) == \A i \in 1..Len(ms) : ms[i] \in Positional =>
                    \A j \in 1..(i - 1) : ms[j] \in Positional
+\* rename: the FIRST argument is published under another name than its Python parameter (_in_variable_names);
+\* members stay in parameter order, keyword callers and the wire use the public name
 Cases ==
-  { c \in [style : Styles, ret : Rets, modes : UNION {[1..n -> Modes] : n \in 0..3}] :
+  { c \in [style : Styles, ret : Rets, modes : UNION {[1..n -> Modes] : n \in 0..3}, rename : BOOLEAN] :
+      /\ (c.rename => (c.style = "wrapped" /\ Len(c.modes) >= 2 /\ c.ret \in {"one", "none"}))
+      /\ (c.ret = "ignored_two" => c.style = "wrapped")
       /\ PrefixOk(c.modes)
       /\ (c.style = "empty" => Len(c.modes) = 0)
       /\ (c.style = "bare" => (Len(c.modes) = 2 /\ c.ret \in {"one", "fault", "none"}))   \* one complex argument, passed field-wise
@@ -62,10 +66,11 @@ Result(c) == CASE c.ret = "none"    -> <<"value", <<>>>>
                [] c.ret = "cplx"    -> <<"value", <<R1, R2>>>>      \* the members of the returned object
                [] c.ret = "ignored" -> <<"ignored", <<>>>>
                [] c.ret = "ignored_cplx" -> <<"ignored", <<>>>>
+               [] c.ret = "ignored_two" -> <<"ignored", <<>>>>
                [] c.ret = "fault"   -> <<"fault", <<"Client", "Custom">>>>
                [] c.ret = "exc"     -> <<"fault", <<"Server">>>>
 \* over the wire an Ignored return is an empty response
-Ign(c) == c.ret \in {"ignored", "ignored_cplx"}
+Ign(c) == c.ret \in {"ignored", "ignored_cplx", "ignored_two"}
 WireResult(c) == IF Ign(c) THEN <<"value", <<>>>> ELSE Result(c)
 \* a non-Fault exception raised by user code reaches the direct caller as the generic fault as well
 NullResult(c) == Result(c)
